@@ -343,7 +343,10 @@ func (m *Mux) encError(w http.ResponseWriter, r *http.Request, err error) {
 	w.Header().Set("Content-Type", accept)
 	w.WriteHeader(HTTPStatusCode(s.Code()))
 
-	b, err := c.Marshal(s.Proto())
+	// Error texts may quote raw request bytes; a proto3 string must be valid UTF-8.
+	sp := s.Proto()
+	sp.Message = strings.ToValidUTF8(sp.Message, "\uFFFD")
+	b, err := c.Marshal(sp)
 	if err != nil {
 		panic(err) // ...
 	}
